@@ -16,9 +16,9 @@ import (
 //
 //   - an operation may have found the entry present only if Hi > CLo (some admissible clock sample lies
 //     before some admissible deadline), absent only if there is no entry or Lo <= CHi;
-//   - a write gives the entry the deadline [CLo+TTL, CHi+TTL]; under an access-reset policy a successful
-//     plain read does the same; the conditional operations that found the entry present may or may not
-//     have reset it (hull of both);
+//   - a write gives the entry the deadline [CLo+TTL, CHi+TTL]; under an access-reset policy a read or a
+//     conditional operation that found the entry present may or may not have reset it to that (hull of both:
+//     the reset is a compare-and-swap after the lookup and can lose against a concurrent writer);
 //   - a removal reported with cause Expiration is legitimate only if Lo <= the clock read in the handler.
 //
 // Every relaxation widens what the model accepts: the check never demands more than "some total order of
@@ -73,10 +73,10 @@ func linExpStep(state, input, output any) (bool, any) {
 			if !(vis && st.V == out.RV) {
 				return false, st
 			}
-			if in.Access {
-				return true, fresh(st.V)
-			}
-			return true, st
+			// (the reset may be lost: a reader that found the entry alive publishes its new deadline with a
+			// compare-and-swap after the lookup; a writer that judges the entry under the bucket lock in between
+			// has the last word - so the model only widens the deadline interval)
+			return true, maybeTouched()
 		}
 		return abs, st
 	case kReadQuiet:
